@@ -310,3 +310,22 @@ def provoke_faults(run, fcp, sch, name, v, k):
         except Exception:
             run.count("failed_calls_before_a_judged_call")
 
+
+
+_EARLIER = []
+
+
+def earlier_results_intact(run, raw, copy_now, case):
+    """History monitor: the objects returned by the last few encode() calls are kept by the caller (a queue of
+    frames waiting to be sent); a later encode() must not change them."""
+    for old_raw, old_copy, old_case in _EARLIER:
+        if bytes(old_raw) != old_copy:
+            run.violation("the bytes returned by an earlier encode() call changed when encode() was called again (the earlier call: struct %s)" % old_case.get("struct"),
+                          dict(case, earlier_call=dict(old_case, bytes_then=old_copy, bytes_now=bytes(old_raw))))
+            del _EARLIER[:]
+            return False
+    if not isinstance(raw, bytes):
+        _EARLIER.append((raw, copy_now, {"schema": case.get("schema"), "struct": case.get("struct"), "value": case.get("value")}))
+        del _EARLIER[:-3]
+        run.count("earlier_encode_results_rechecked")
+    return True
